@@ -70,6 +70,19 @@ class C01Monitor:
                 return True
         errs = self.check(eng.u)
         ctx.count("invariant_evals")
+        if not errs and self.prefix == "":
+            # a by-value handle (instance, inner pin) is the documented way to name an instance pin: it must FIND the pin the
+            # instance holds - equal to it, and with the same hash - also after the instance was re-pointed
+            for inst in eng.u.insts:
+                for ip_, op_ in list(inst.pins.items())[:6]:
+                    h_ = sdn.OuterPin.from_instance_and_inner_pin(inst, ip_)
+                    ctx.count("handle_lookups_checked")
+                    if not (h_ == op_ and hash(h_) == hash(op_) and h_ in {op_}):
+                        errs = [("I10-handle-does-not-find-pin", "a handle built from (instance, inner pin) is not found among the pins it "
+                                 "denotes (equal=%s, same hash=%s)" % (h_ == op_, hash(h_) == hash(op_)))]
+                        break
+                if errs:
+                    break
         if errs:
             code, detail = errs[0]
             ctx.violation("%s%s@%s%s" % (self.prefix, code, op.label, "" if outcome == "ok" else ":" + outcome),
